@@ -5,7 +5,7 @@
 From Coq Require Import QArith List Bool Arith.
 From NurbsV Require Import Base.Res Base.QList Spec.KnotSpec Spec.BSpline Gen.Consts Model.KV Model.Basis Model.CurveM Model.Ops
   Model.CurveOps Model.Linalg Model.Quadrature Model.LeastSq Model.CurveLS Model.MathOps.
-From NurbsV Require Import Proofs.MatProofs Proofs.LSProofs Proofs.UnionProofs Proofs.InsertCompose.
+From NurbsV Require Import Proofs.MatProofs Proofs.LSProofs Proofs.UnionProofs Proofs.InsertCompose Proofs.ArithProofs.
 Import ListNotations.
 Open Scope Q_scope.
 Theorem C08_common_vector_refines_left :
@@ -64,6 +64,281 @@ Theorem C08_product_collocation_reproduces :
        lstsq A = Ok Mx -> forall b z : list Q, length z = m -> veq b (mvec A z) -> veq (mvec Mx b) z.
 Proof. exact lstsq_reproduces. Qed.
 Print Assumptions C08_product_collocation_reproduces.
+
+(* ---- pointwise theorems (Proofs/ArithProofs.v): negation and scalar forms for polynomial and rational curves, sum /
+   difference / quotient of curves given change-of-basis matrices that preserve the operands (`refines`, delivered by
+   knot insertion: C08_knot_insertion_refines), s / A. ---- *)
+Theorem C08_neg_pointwise :
+  forall (c : curve) (P : list (list Q)) (d : nat),
+       cP c = Some P ->
+       forall (c' : curve) (u : Q),
+       c_neg c = Ok c' ->
+       cW c = None ->
+       exists P' : list pt,
+         cP c' = Some P' /\
+         cW c' = None /\
+         ckv c' = ckv c /\
+         length P' = length P /\
+         (dims d P -> dims d P') /\
+         Forall2 Qeq (curve_spec (kvec (ckv c')) (cdeg c') d P' u)
+           (map Qopp (curve_spec (kvec (ckv c)) (cdeg c) d P u)).
+Proof. exact c_neg_spline. Qed.
+Print Assumptions C08_neg_pointwise.
+
+Theorem C08_scalar_mul_pointwise :
+  forall (c : curve) (P : list (list Q)) (d : nat),
+       cP c = Some P ->
+       forall (s : Q) (c' : curve) (u : Q),
+       c_mul_scalar c s = Ok c' ->
+       cW c = None ->
+       exists P' : list pt,
+         cP c' = Some P' /\
+         cW c' = None /\
+         ckv c' = ckv c /\
+         length P' = length P /\
+         (dims d P -> dims d P') /\
+         Forall2 Qeq (curve_spec (kvec (ckv c')) (cdeg c') d P' u)
+           (map (Qmult s) (curve_spec (kvec (ckv c)) (cdeg c) d P u)).
+Proof. exact c_mul_scalar_spline. Qed.
+Print Assumptions C08_scalar_mul_pointwise.
+
+Theorem C08_scalar_div_pointwise :
+  forall (c : curve) (P : list (list Q)) (d : nat),
+       cP c = Some P ->
+       forall (s : Q) (c' : curve) (u : Q),
+       c_div_scalar c s = Ok c' ->
+       cW c = None ->
+       ~ s == 0 /\
+       (exists P' : list pt,
+          cP c' = Some P' /\
+          cW c' = None /\
+          ckv c' = ckv c /\
+          length P' = length P /\
+          (dims d P -> dims d P') /\
+          Forall2 Qeq (curve_spec (kvec (ckv c')) (cdeg c') d P' u)
+            (map (fun x : Q => x / s) (curve_spec (kvec (ckv c)) (cdeg c) d P u))).
+Proof. exact c_div_scalar_spline. Qed.
+Print Assumptions C08_scalar_div_pointwise.
+
+Theorem C08_scalar_div_zero :
+  forall (c : curve) (s : Q), s == 0 -> c_div_scalar c s = Err ZeroDivisionError.
+Proof. exact c_div_scalar_zero. Qed.
+Print Assumptions C08_scalar_div_zero.
+
+Theorem C08_scalar_add_pointwise :
+  forall (c : curve) (P : list (list Q)) (d : nat),
+       cP c = Some P ->
+       forall (v : pt) (c' : curve) (u : Q),
+       c_add_scalar c v = Ok c' ->
+       cW c = None ->
+       WF (kvec (ckv c)) (cdeg c) ->
+       in_range (kvec (ckv c)) (cdeg c) u = true ->
+       length P = cnpts c ->
+       length v = d ->
+       dims d P ->
+       exists P' : list pt,
+         cP c' = Some P' /\
+         cW c' = None /\
+         ckv c' = ckv c /\
+         length P' = length P /\
+         dims d P' /\
+         Forall2 Qeq (curve_spec (kvec (ckv c')) (cdeg c') d P' u)
+           (map2 Qplus (curve_spec (kvec (ckv c)) (cdeg c) d P u) v).
+Proof. exact c_add_scalar_spline. Qed.
+Print Assumptions C08_scalar_add_pointwise.
+
+Theorem C08_neg_rational :
+  forall (c : curve) (P : list (list Q)) (d : nat),
+       cP c = Some P ->
+       forall Wt : list Q,
+       cW c = Some Wt ->
+       forall (c' : curve) (u : Q),
+       c_neg c = Ok c' ->
+       exists P' : list pt,
+         cP c' = Some P' /\
+         cW c' = Some Wt /\
+         ckv c' = ckv c /\
+         length P' = length P /\
+         (dims d P -> dims d P') /\
+         Forall2 Qeq (rational_spec (kvec (ckv c')) (cdeg c') d Wt P' u)
+           (map Qopp (rational_spec (kvec (ckv c)) (cdeg c) d Wt P u)).
+Proof. exact c_neg_rational. Qed.
+Print Assumptions C08_neg_rational.
+
+Theorem C08_scalar_mul_rational :
+  forall (c : curve) (P : list (list Q)) (d : nat),
+       cP c = Some P ->
+       forall Wt : list Q,
+       cW c = Some Wt ->
+       forall (s : Q) (c' : curve) (u : Q),
+       c_mul_scalar c s = Ok c' ->
+       exists P' : list pt,
+         cP c' = Some P' /\
+         cW c' = Some Wt /\
+         ckv c' = ckv c /\
+         length P' = length P /\
+         (dims d P -> dims d P') /\
+         Forall2 Qeq (rational_spec (kvec (ckv c')) (cdeg c') d Wt P' u)
+           (map (Qmult s) (rational_spec (kvec (ckv c)) (cdeg c) d Wt P u)).
+Proof. exact c_mul_scalar_rational. Qed.
+Print Assumptions C08_scalar_mul_rational.
+
+Theorem C08_scalar_add_rational :
+  forall (c : curve) (P : list (list Q)) (d : nat),
+       cP c = Some P ->
+       forall Wt : list Q,
+       cW c = Some Wt ->
+       forall (v : pt) (c' : curve) (u : Q),
+       c_add_scalar c v = Ok c' ->
+       WF (kvec (ckv c)) (cdeg c) ->
+       in_range (kvec (ckv c)) (cdeg c) u = true ->
+       length P = cnpts c ->
+       length Wt = cnpts c ->
+       Forall (fun w : Q => 0 < w) Wt ->
+       length v = d ->
+       dims d P ->
+       exists P' : list pt,
+         cP c' = Some P' /\
+         cW c' = Some Wt /\
+         ckv c' = ckv c /\
+         length P' = length P /\
+         dims d P' /\
+         Forall2 Qeq (rational_spec (kvec (ckv c')) (cdeg c') d Wt P' u)
+           (map2 Qplus (rational_spec (kvec (ckv c)) (cdeg c) d Wt P u) v).
+Proof. exact c_add_scalar_rational. Qed.
+Print Assumptions C08_scalar_add_rational.
+
+Theorem C08_add_pointwise :
+  forall (a b c' : curve) (Pa Pb : list pt) (d : nat) (u : Q),
+       c_add a b = Ok c' ->
+       cP a = Some Pa ->
+       cP b = Some Pb ->
+       cW a = None ->
+       cW b = None ->
+       length Pa = cnpts a ->
+       length Pb = cnpts b ->
+       dims d Pa ->
+       pdim Pa = d ->
+       dims d Pb ->
+       pdim Pb = d ->
+       (forall (kc : kv) (Ma Mb : mat),
+        kor (ckv a) (ckv b) = Ok kc ->
+        matrix_transformation (ckv a) kc = Ok Ma ->
+        matrix_transformation (ckv b) kc = Ok Mb -> refines (ckv a) kc Ma u /\ refines (ckv b) kc Mb u) ->
+       exists (kc : kv) (P' : list pt),
+         kor (ckv a) (ckv b) = Ok kc /\
+         c' = {| ckv := kc; cP := Some P'; cW := None |} /\
+         length P' = knpts kc /\
+         dims d P' /\
+         Forall2 Qeq (curve_spec (kvec kc) (kdeg kc) d P' u)
+           (map2 Qplus (curve_spec (kvec (ckv a)) (cdeg a) d Pa u)
+              (curve_spec (kvec (ckv b)) (cdeg b) d Pb u)).
+Proof. exact c_add_pointwise. Qed.
+Print Assumptions C08_add_pointwise.
+
+Theorem C08_sub_pointwise :
+  forall (a b c' : curve) (Pa Pb : list pt) (d : nat) (u : Q),
+       c_sub a b = Ok c' ->
+       cP a = Some Pa ->
+       cP b = Some Pb ->
+       cW a = None ->
+       cW b = None ->
+       length Pa = cnpts a ->
+       length Pb = cnpts b ->
+       dims d Pa ->
+       pdim Pa = d ->
+       dims d Pb ->
+       pdim Pb = d ->
+       (forall (kc : kv) (Ma Mb : mat),
+        kor (ckv a) (ckv b) = Ok kc ->
+        matrix_transformation (ckv a) kc = Ok Ma ->
+        matrix_transformation (ckv b) kc = Ok Mb -> refines (ckv a) kc Ma u /\ refines (ckv b) kc Mb u) ->
+       exists (kc : kv) (P' : list pt),
+         kor (ckv a) (ckv b) = Ok kc /\
+         c' = {| ckv := kc; cP := Some P'; cW := None |} /\
+         length P' = knpts kc /\
+         dims d P' /\
+         Forall2 Qeq (curve_spec (kvec kc) (kdeg kc) d P' u)
+           (map2 Qminus (curve_spec (kvec (ckv a)) (cdeg a) d Pa u)
+              (curve_spec (kvec (ckv b)) (cdeg b) d Pb u)).
+Proof. exact c_sub_pointwise. Qed.
+Print Assumptions C08_sub_pointwise.
+
+Theorem C08_div_pointwise :
+  forall (a b c' : curve) (Pa Pb : list pt) (da db : nat) (u : Q),
+       c_div a b = Ok c' ->
+       cP a = Some Pa ->
+       cP b = Some Pb ->
+       cW a = None ->
+       cW b = None ->
+       length Pa = cnpts a ->
+       length Pb = cnpts b ->
+       dims da Pa ->
+       pdim Pa = da ->
+       dims db Pb ->
+       pdim Pb = db ->
+       (0 < db)%nat ->
+       (forall (kc : kv) (Ma Mb : mat),
+        kor (ckv a) (ckv b) = Ok kc ->
+        matrix_transformation (ckv a) kc = Ok Ma ->
+        matrix_transformation (ckv b) kc = Ok Mb -> refines (ckv a) kc Ma u /\ refines (ckv b) kc Mb u) ->
+       exists (kc : kv) (P' : list pt) (w : list Q),
+         kor (ckv a) (ckv b) = Ok kc /\
+         c' = {| ckv := kc; cP := Some P'; cW := Some w |} /\
+         length P' = knpts kc /\
+         length w = knpts kc /\
+         Forall (fun wi : Q => ~ wi == 0) w /\
+         weight_spec (kvec kc) (kdeg kc) w u == curve_spec1 (kvec (ckv b)) (cdeg b) (coord 0 Pb) u /\
+         Forall2 Qeq (rational_spec (kvec kc) (kdeg kc) da w P' u)
+           (map (fun x : Q => x / curve_spec1 (kvec (ckv b)) (cdeg b) (coord 0 Pb) u)
+              (curve_spec (kvec (ckv a)) (cdeg a) da Pa u)).
+Proof. exact c_div_pointwise. Qed.
+Print Assumptions C08_div_pointwise.
+
+Theorem C08_rdiv_pointwise :
+  forall (s : Q) (a c' : curve) (Pa : list pt) (u : Q),
+       c_rdiv s a = Ok c' ->
+       cP a = Some Pa ->
+       cW a = None ->
+       WF (kvec (ckv a)) (cdeg a) ->
+       in_range (kvec (ckv a)) (cdeg a) u = true ->
+       length Pa = cnpts a ->
+       exists (P' : list pt) (w : list Q),
+         c' = {| ckv := ckv a; cP := Some P'; cW := Some w |} /\
+         w = coord 0 Pa /\
+         length P' = cnpts a /\
+         dims 1%nat P' /\
+         Forall (fun wi : Q => ~ wi == 0) w /\
+         Forall2 Qeq (rational_spec (kvec (ckv a)) (cdeg a) 1 w P' u)
+           [s / curve_spec1 (kvec (ckv a)) (cdeg a) (coord 0 Pa) u].
+Proof. exact c_rdiv_pointwise. Qed.
+Print Assumptions C08_rdiv_pointwise.
+
+Theorem C08_rdiv_zero_weight :
+  forall (s : Q) (a : curve) (Pa : list pt),
+       cP a = Some Pa ->
+       cW a = None ->
+       existsb (fun x : Q => Qeqb x 0) (coord 0 Pa) = true -> c_rdiv s a = Err ZeroDivisionError.
+Proof. exact c_rdiv_zero. Qed.
+Print Assumptions C08_rdiv_zero_weight.
+
+Theorem C08_knot_insertion_refines :
+  forall (k : kv) (nodes : list Q) (M : mat) (k' : kv) (u : Q),
+       WF (kvec k) (kdeg k) ->
+       knot_insert k nodes = Ok M ->
+       kinsert k nodes = Ok k' -> kdeg k' = kdeg k -> in_range (kvec k) (kdeg k) u = true -> refines k k' M u.
+Proof. exact refines_knot_insert. Qed.
+Print Assumptions C08_knot_insertion_refines.
+
+Theorem C08_quotient_core :
+  forall (U : list Q) (p : nat) (w x : list Q) (u : Q),
+       length x = length w ->
+       Forall (fun wi : Q => ~ wi == 0) w ->
+       rational_spec1 U p w (map2 (fun xi wi : Q => xi / wi) x w) u ==
+       curve_spec1 U p x u / curve_spec1 U p w u.
+Proof. exact quotient_core. Qed.
+Print Assumptions C08_quotient_core.
+
 
 (* non-vacuity: sum, product and quotient of two curves with different degrees and knots, computed by the model *)
 Example C08_nonvacuous :
